@@ -9,6 +9,8 @@ CHECKS = {
     "C04": dict(category="other", technique=_BT, text="multiset of emitted rows = placement oracle (every grid, include_first/last, offsets, scales); nothing else emitted; unplaceable grid rejected", note="assumes model/casadi"),
     "C05": dict(category="other", technique=_BT, text="objective handed to Opti = sum of declared terms of every kind", note="assumes model/casadi"),
     "C06": dict(category="other", technique=_BT, text="control/integrator grids equal the declared partition; coupling rows are equivalent to it incl. min/max", note="assumes model/casadi; irrational geometric growth factors within 1e-9"),
+    "C07": dict(category="other", technique=_BT + "; DM2numpy enumerated with the real numpy", text="sample(e, grid) on every grid (control, control-, integrator, integrator-, integrator_roots, integrator+refine) returns e at each point's own values and times, one time per column; value(e); DM2numpy index map", note="assumes model/casadi; numeric read-back = Opti.value of the same expression (A-OPTI)"),
+    "C08": dict(category="other", technique=_BT, text="refined samples lie on the stored per-step polynomial; polynomial starts at the step start, ends at the step end, has the ODE slope (explicit) / interpolates the helper states with slope Xc*C/h (collocation); every r-th entry is the integrator sample", note="assumes model/casadi; convergence statements by citation (A-MATH-RK); sampler() not yet under contract"),
     "C09": dict(category="other", technique=_BT, text="parameters of every kind reach exactly the rows/objective of their interval", note="assumes model/casadi"),
     "C10": dict(category="other", technique=_BT, text="starting value of every decision variable, read back in physical units, equals the guess oracle (constants, column arrays, time expressions, last call wins, helper states)", note="assumes model/casadi; n-by-N arrays for node quantities: final node takes the last column"),
     "C11": dict(category="other", technique=_BT, text="free/fixed/parametric horizon give the same oracle rows plus T>=0", note="assumes model/casadi"),
@@ -18,5 +20,5 @@ NOT_APPLICABLE = {
     "C18": "save/load is pickle + CasADi's serializer; no contract on rockit code can express it (DESIGN.md section 8)",
     "C19": "both sides of the equation are NLP-solver runs (DESIGN.md section 8)",
 }
-for _p in ("C03", "C07", "C08", "C12", "C13", "C15", "C16", "C17", "C20"):
+for _p in ("C03", "C12", "C13", "C15", "C16", "C17", "C20"):
     NOT_APPLICABLE[_p] = "check under construction in this session (will be claimed once it is green on the unchanged tree)"
